@@ -153,15 +153,20 @@ Section Ham.
   Definition spec_eqb (model impl : hamspec) : bool :=
     zlist_eqb (h_qd model) (h_qd impl) && list_eqb chain_eqb (h_lop model) (h_lop impl) &&
     opmap_eqb (h_opmap model) (h_opmap impl) && (h_idn model =? h_idn impl).
-  (* captured tables = model tables; the graph handed to MPO.from_opgraph = model graph (recorded covers and the
-     model's own cover routine), consistent, of length L, linked; bond dimensions = layer widths *)
+  (* captured tables = model tables; the graph handed to MPO.from_opgraph = model graph built with the RECORDED covers
+     (each checked to be a valid vertex cover of the site graph it answers: validity is all that C06 needs, minimality
+     is C20's business), consistent, of length L; bond dimensions = layer widths *)
   Definition check_ham (model impl : hamspec) (L : nat)
              (tbl : list ((nat * nat * list (nat * nat)) * (list nat * list nat)))
              (fuel : nat) (expected : res graph) (dims : list nat) : bool :=
     spec_eqb model impl &&
-    check_chains tbl (spec_chains model L) L (h_idn model) fuel expected &&
-    match expected with
-    | Ok g => match bond_dims g with Some ws => nat_list_eqb ws dims | None => false end
+    let r := spec_graph (cover_table tbl) model L in
+    res_graph_eqb r expected &&
+    forallb (fun row => let '(nu, nv, es) := fst row in cover_okb nu nv es (snd row)) tbl &&
+    match r with
+    | Ok g => match is_consistent_fuel fuel g with Some true => true | _ => false end &&
+              match glength g with Some n => Nat.eqb n L | None => false end &&
+              match bond_dims g with Some ws => nat_list_eqb ws dims | None => false end
     | Err _ => true
     end.
   Definition check_linferm (coeff : list R) (create : bool) (impl_opmap : list (Z * mx)) (g : graph) (dims : list nat) : bool :=
